@@ -2,7 +2,7 @@ use crate::{
     constants::{
         LmsTreeIdentifier, D_TOPSEED, HSS_COMPRESSED_USED_LEAFS_SIZE, ILEN, MAX_ALLOWED_HSS_LEVELS,
         MAX_HASH_SIZE, MAX_SEED_LEN, REF_IMPL_MAX_ALLOWED_HSS_LEVELS, REF_IMPL_MAX_PRIVATE_KEY_SIZE,
-        SEED_CHILD_SEED,
+        SEED_CHILD_SEED, TREE_HEIGHTS, WINTERNITZ_PARAMETERS,
         SEED_SIGNATURE_RANDOMIZER_SEED, TOPSEED_D, TOPSEED_LEN, TOPSEED_SEED, TOPSEED_WHICH,
     },
     hasher::HashChain,
@@ -218,6 +218,18 @@ pub fn generate_signature_randomizer<H: HashChain>(
 
 const PARAM_SET_END: u8 = 0xff; // Marker for end of parameter set
 
+/// The buffers of this build are sized by `HBS_LMS_TREE_HEIGHTS` and
+/// `HBS_LMS_WINTERNITZ_PARAMETERS`: a level with a taller tree or a smaller Winternitz parameter
+/// than configured for it cannot be handled and is refused.
+fn within_build_limits<H: HashChain>(parameters: &[HssParameter<H>]) -> bool {
+    parameters.iter().enumerate().all(|(level, parameter)| {
+        level < MAX_ALLOWED_HSS_LEVELS
+            && parameter.get_lms_parameter().get_tree_height() as usize <= TREE_HEIGHTS[level]
+            && parameter.get_lmots_parameter().get_winternitz() as usize
+                >= WINTERNITZ_PARAMETERS[level]
+    })
+}
+
 #[derive(Clone, PartialEq, Eq, Zeroize, ZeroizeOnDrop)]
 pub struct CompressedParameterSet([u8; REF_IMPL_MAX_ALLOWED_HSS_LEVELS]);
 
@@ -240,7 +252,10 @@ impl CompressedParameterSet {
     }
 
     pub fn from<H: HashChain>(parameters: &[HssParameter<H>]) -> Result<Self, ()> {
-        if parameters.is_empty() || parameters.len() > MAX_ALLOWED_HSS_LEVELS {
+        if parameters.is_empty()
+            || parameters.len() > MAX_ALLOWED_HSS_LEVELS
+            || !within_build_limits(parameters)
+        {
             return Err(());
         }
 
@@ -290,7 +305,7 @@ impl CompressedParameterSet {
             result.extend_from_slice(&[HssParameter::new(lmots, lms)]);
         }
 
-        if result.is_empty() {
+        if result.is_empty() || !within_build_limits(result.as_slice()) {
             return Err(());
         }
 
